@@ -777,7 +777,14 @@ pub fn run_c06(sim: &Sim, prop: &str, tier: Tier) -> Outcome {
         }
     };
     // optionally leave a stale partial packet that the probes can be confused with
-    let p1 = mk_probe(1);
+    let mut p1 = mk_probe(1);
+    // rarely the first probe is a packet of the maximum size class (4096 frames, or the sizes
+    // next to it): the largest thing a receiver ever has to complete, right before the probe
+    // that must get through
+    if sim.draw(500) == 499 {
+        p1.data = fill_pattern(sim.pick(&[6u32, 3, 0]), sim.draw(1000), sim.pick(&[28672usize, 28666, 28665, 28659]));
+        sim.probe("first_probe_of_4096_frames");
+    }
     if sim.chance(50) {
         let stale_len = sim.pick(&[22usize, 15, 36, 9, 64]);
         let stale = Packet {
@@ -825,6 +832,19 @@ pub fn run_c06(sim: &Sim, prop: &str, tier: Tier) -> Outcome {
     };
     if packet_eq(&p1, &p2) && !identical_probes {
         p2.data.push(0xa5);
+    }
+    // rarely the prefix ends with a complete, valid packet of the maximum size class (4096
+    // frames, or the sizes next to it): the largest thing a receiver ever has to complete
+    if sim.draw(400) == 399 {
+        let big = Packet {
+            is_error: sim.chance(30),
+            device_address: if sim.chance(70) { p1.device_address } else { cfg.addrs[sim.draw(3) as usize] },
+            data: fill_pattern(sim.pick(&[6u32, 3, 0]), sim.draw(1000), sim.pick(&[28672usize, 28666, 28665, 28659])),
+        };
+        if let Err(e) = clean_packet_items(kind, &big, Tag::Prefix, &mut items) {
+            return enc_fail(e);
+        }
+        sim.probe("prefix_ends_with_packet_of_4096_frames");
     }
     // sometimes the prefix ends with a complete copy of the first probe (the same packet was
     // sent before, successfully or not: repeating a packet is ordinary traffic)
